@@ -542,5 +542,6 @@ class Tracer(object):
                 except Exception:
                     # not a (version class, identity + transaction id) key: report it verbatim (the model has no such entry)
                     vobjs.append('unexpected:%s' % repr(vkey)[:80].replace(' ', '_'))
-            d.update({'cur': cur, 'ops': ops, 'vobjs': sorted(vobjs), 'pending': len(u.pending_statements)})
+            d.update({'cur': cur, 'ops': ops, 'vobjs': sorted(vobjs), 'pending': len(u.pending_statements),
+                      'lookup': bool(getattr(u, 'lookup_version_objs', False))})
         return d
